@@ -5,16 +5,20 @@ import BarterModel.Model.Channels
 C10C driver. One case uses one or more of the sections below (each section has its own state).
 
 channel            `chan` | `send H V` | `sink H V` | `nextwait H V` | `clone H` | `droptx H` | `tostream` | `next` |
-                   `poll` | `droprx` | `wrap H` | `wrapoff` | `dsend V` | `disable`
+                   `poll` | `droprx` | `wrap H` | `wrapoff` | `dsend V` | `disable` | `dropd`
                    (H = transmitter handle id, handle 0 is created by `chan`, `clone` creates the next id;
-                   `wrap H` moves handle H into a `ChannelTxDroppable`)
+                   `wrap H` moves handle H into a `ChannelTxDroppable`; `dropd` drops that `ChannelTxDroppable`
+                   whatever its state — afterwards another handle may be wrapped)
 flaky transmitter  `flaky M` | `flakyoff` | `fsend V` | `fdisable`          (send fails iff M divides V)
 merge              `merge` | `ml V` | `mr V` | `mcl` | `mcr` | `mpoll` |
                    `mrun W NL NR CL CR SEED`   (runtime run, W workers; set-valued observation)
 indexed stream     `index` | `ipush V` | `iclose` | `ipoll`                  (index fails iff 3 divides V)
 snapshot           `snap V K` | `snapupd S U...`
-producer/consumer  `prod V0` | `pupd U` | `precv` | `pdroprx` | `pdisable`
-engine run loops   `init ...` | `algo ...` | `ev ...` (EngineCommon syntax) | `rundrop sync|async K`
+producer/consumer  `prod V0` | `pupd U` | `precv` | `pdroprx` | `pdisable` | `pdroptx` (the producer's transmitter is dropped)
+engine run loops   `init ...` | `algo ...` | `ev ...` (EngineCommon syntax) | `rundrop sync|async K` |
+                   `runprod sync|async R`  (the run closure of `SystemBuilder::init`: runner, `engine.shutdown()`,
+                   `audit_tx` dropped; the consumer reads one record before every R-th `feed.next()` (R = 0: never)
+                   and, once the closure has returned, reads to the end of the stream)
 -/
 namespace BarterModel.Driver.C10C
 open BarterModel.Driver BarterModel.Driver.EngineCommon BarterModel.Engine BarterModel.Orders
@@ -146,6 +150,12 @@ def chStep (s : Option ChSt) (toks : List String) : Option (Option ChSt × List 
       let s' := { s with d := some r.1, c := r.2 }
       some (some s', s'.obs)
     | none => none
+  | ["dropd"], some s =>
+    match s.d with
+    | some d =>
+      let s' := { s with d := none, c := ddrop (chanTx (α := Nat)) d s.c }
+      some (some s', s'.obs)
+    | none => none
   | _, _ => none
 
 /-- spec state of the channel section: the log-with-cursor stream, raw handles, the droppable's switch -/
@@ -243,6 +253,14 @@ def chSpecStep (s : Option ChSpec) (toks : List String) : Option (Option ChSpec 
     | some live =>
       let t := (⟨s.ch, live, false⟩ : SpecSys Nat).step .disable
       let s' := { s with ch := t.ch, live := some t.live }
+      some (some s', s'.obs)
+    | none => none
+  | ["dropd"], some s =>
+    match s.live with
+    | some live =>
+      -- a transmitter that is dropped releases its hold on the stream iff it still had one
+      let t := (⟨s.ch, live, false⟩ : SpecSys Nat).step .dropTx
+      let s' := { s with ch := t.ch, live := none }
       some (some s', s'.obs)
     | none => none
   | _, _ => none
@@ -350,7 +368,12 @@ def mgStep (s : Option (MRun Nat)) (toks : List String) : Option (Option (MRun N
 
 /-- spec of the merge section: the set of poll results the doc comment allows in the current
 configuration (head of either input; the end when an ended input is used up; pending only when there
-is nothing to hand over); the configuration then follows the result that was actually observed. -/
+is nothing to hand over). The CONFIGURATION — what each input accepted, what has been handed over, whether
+the stream has ended — is the MODEL's (`r.step .poll` below; a spec-mode driver never sees the
+implementation's output, so it cannot follow the observed result): the set therefore judges a poll
+correctly as long as implementation and model have agreed so far, i.e. at the first deviating poll, which
+is the one the check reports. `msend` (does a send still succeed) is a copy of the model and is not
+printed in spec mode: correspondence-only. -/
 def mgSpecStep (s : Option (MRun Nat)) (toks : List String) : Option (Option (MRun Nat) × List String) :=
   match toks, s with
   | ["mpoll"], some r =>
@@ -370,7 +393,7 @@ def mgSpecStep (s : Option (MRun Nat)) (toks : List String) : Option (Option (MR
   | "mrun" :: _, _ => (mrunLine toks).map fun l => (s, [l, "mend 1"])
   | _, _ =>
     match mgStep s toks with
-    | some (s', lines) => some (s', lines.filter fun l => l.startsWith "msend")
+    | some (s', _) => some (s', [])
     | none => none
 
 /-! ### indexed stream section -/
@@ -440,7 +463,7 @@ structure PrSt where
 
 def PrSt.obs (s : PrSt) : List String :=
   [ s!"pstate {s.p.state}", s!"preplica {replay applyFn ⟨s.snapshot, s.p.sys.got⟩}", s!"pgot {s.p.sys.got.length}",
-    "dstate " ++ fmtD (some s.p.sys.d), "pend " ++ fmtBool s.p.sys.sawEnd ]
+    "dstate " ++ fmtD (if s.p.sys.gone then none else some s.p.sys.d), "pend " ++ fmtBool s.p.sys.sawEnd ]
 
 def prOp (toks : List String) : Option (Op Nat) :=
   match toks with
@@ -448,6 +471,7 @@ def prOp (toks : List String) : Option (Op Nat) :=
   | ["precv"] => some .recv
   | ["pdroprx"] => some .dropRx
   | ["pdisable"] => some .disable
+  | ["pdroptx"] => some .dropTx
   | _ => none
 
 def prStep (s : Option PrSt) (toks : List String) : Option (Option PrSt × List String) :=
@@ -460,6 +484,8 @@ def prStep (s : Option PrSt) (toks : List String) : Option (Option PrSt × List 
     match prOp toks with
     | some op =>
       if (op == .recv || op == .dropRx) && !s.p.sys.c.rxAlive then none else
+      -- the transmitter is gone: nothing can be sent, disabled or dropped any more
+      if (op != .recv && op != .dropRx) && s.p.sys.gone then none else
       let s' := { s with p := s.p.step applyFn op }
       some (some s', s'.obs)
     | none => none
@@ -470,25 +496,28 @@ structure PrSpec where
   snapshot : Nat
   produced : List Nat
   sys : SpecSys Nat
+  /-- the producer's transmitter has been dropped -/
+  gone : Bool := false
   deriving Inhabited
 
 def PrSpec.obs (s : PrSpec) : List String :=
   [ s!"pstate {s.produced.foldl applyFn s.snapshot}",
     s!"preplica {specReplay applyFn s.snapshot s.produced s.sys.ch.cursor}", s!"pgot {s.sys.ch.cursor}",
-    "dstate " ++ (if s.sys.live then "A" else "D"), "pend " ++ fmtBool s.sys.sawEnd ]
+    "dstate " ++ (if s.gone then "-" else if s.sys.live then "A" else "D"), "pend " ++ fmtBool s.sys.sawEnd ]
 
 def prSpecStep (s : Option PrSpec) (toks : List String) : Option (Option PrSpec × List String) :=
   match toks, s with
   | ["prod", v], _ =>
     match v.toNat? with
-    | some v => let s' : PrSpec := ⟨v, [], SpecSys.init true⟩; some (some s', s'.obs)
+    | some v => let s' : PrSpec := ⟨v, [], SpecSys.init true, false⟩; some (some s', s'.obs)
     | none => none
   | _, some s =>
     match prOp toks with
     | some op =>
       if (op == .recv || op == .dropRx) && !s.sys.ch.listening then none else
+      if (op != .recv && op != .dropRx) && s.gone then none else
       let produced := match op with | .dsend u => s.produced ++ [u] | _ => s.produced
-      let s' := { s with produced := produced, sys := s.sys.step op }
+      let s' := { s with produced := produced, sys := s.sys.step op, gone := s.gone || op == .dropTx }
       some (some s', s'.obs)
     | none => none
   | _, none => none
@@ -550,6 +579,92 @@ def runDropSpec (s : EnSt) (k : Nat) : List String :=
     "run_last " ++ lastKind n.2, s!"end_seq {n.1.seq}" ] ++ obsAny "a_" n.1.eng ++
   [ "off_last " ++ lastKind n.2, s!"off_end_seq {n.1.seq}", "off_tx_state D", "off_recv 0", "same_state 1" ]
 
+/-! #### `runprod`: the run closure of `SystemBuilder::init` -/
+
+def sortStrings (l : List String) : List String := (l.toArray.qsort (· < ·)).toList
+
+def fmtXReq : XReq Req → String
+  | .order r => fmtReq r
+  | .shutdown => "shutdown"
+
+/-- one execution link as the harness can see it: `C` (receiver dropped: nothing observable), `M` (no
+transmitter), otherwise what the receiver holds: number of order requests, number of `Shutdown`s, whether
+the last item is a `Shutdown`, and the order requests sorted (`cancel_orders` iterates a hash map) -/
+def xlinkLine (pfx : String) (links : List Link) (x : Nat) (w : Option (XW Req)) : String :=
+  let kind := match links[x]? with
+    | some .healthy => "H" | some .closed => "C" | some .unhealthy => "U" | _ => "M"
+  match w with
+  | none => s!"{pfx}xlink{x} {kind}"
+  | some w =>
+    if !w.c.rxAlive then s!"{pfx}xlink{x} {kind}" else
+    let q := w.c.queue
+    let orders := q.filter fun r => r != .shutdown
+    let nsd := (q.filter fun r => r == .shutdown).length
+    let last := match q.getLast? with | some .shutdown => "S" | some _ => "R" | none => "-"
+    s!"{pfx}xlink{x} {kind} n={orders.length} S={nsd} last={last} reqs=" ++
+      (if orders.isEmpty then "-" else ",".intercalate (sortStrings (orders.map fmtXReq)))
+
+/-- queue length of every observable execution receiver -/
+def xlens (ws : List (Option (XW Req))) : String :=
+  joinOr (ws.map fun w => match w with
+    | some w => if w.c.rxAlive then toString w.c.queue.length else "-"
+    | none => "-")
+
+def prodCons (r : Nat) (k : Nat) : List (Op Tick) := if r != 0 && k % r == 0 then [.recv] else []
+
+def runProd (s : EnSt) (rd : Nat) : List String :=
+  let start : EngA := ⟨s.init, 1⟩
+  let linksOf : EngA → List (Option (XW Req)) := fun a => linkWorlds a.eng
+  let r := runClosure auditRunner sysTx (consumerEnv (prodCons rd)) xwTx linksOf start (Sys.init .active) s.history
+  -- the audit transmitter + receiver system when the closure has returned
+  let sys0 : Sys Tick := { r.world with d := r.tx, gone := true }
+  let during := sys0.got.length
+  -- the consumer reads on: as many reads as there are queued records, then one more
+  let sys1 := sys0.run (List.replicate sys0.c.queue.length .recv)
+  let sys2 := sys1.step .recv
+  let p := plainClosure auditRunner xwTx linksOf start s.history
+  [ s!"prod_during {during}",
+    "prod_seqs " ++ joinOr (sys2.got.map fun t => toString t.seq),
+    "prod_terminal " ++ joinOr (sys2.got.map fun t => fmtBool t.terminal),
+    "prod_early_end " ++ fmtBool sys1.sawEnd,
+    "prod_end " ++ fmtBool sys2.sawEnd,
+    "prod_tx " ++ fmtD (some r.tx),
+    "prod_last " ++ lastKind r.shutdown,
+    s!"prod_end_seq {r.engine.seq}",
+    -- the execution receivers when the terminal record is handed to `audit_tx`: no `Shutdown` yet
+    "at_terminal " ++ xlens (linksOf r.engine) ] ++
+  (r.links.zipIdx.map fun (w, x) => xlinkLine "" s.init.links x w) ++
+  [ "plain_last " ++ lastKind p.2.1 ] ++
+  (p.2.2.zipIdx.map fun (w, x) => xlinkLine "plain_" s.init.links x w)
+
+/-- spec of `runprod`, written from the texts (run.rs doc comments, `SyncShutdown`, builder.rs), not from
+the channel model: a consumer that keeps listening gets EVERY record of the run in order, the last one is
+terminal and the only terminal one, and only then the end of the stream; every exchange with a live
+execution channel has received the order requests of the run and then exactly one `Shutdown`, which was
+not there yet when the terminal record was sent; the same without audit. -/
+def runProdSpec (s : EnSt) : List String :=
+  let start : EngA := ⟨s.init, 1⟩
+  let n := runPlain auditRunner start s.history
+  let ticks := runTicks auditRunner start s.history
+  let reqsOf := fun (x : Nat) => sortStrings ((n.1.eng.log.filter fun r => r.key.exchange == x).map fmtReq)
+  let link := fun (pfx : String) (x : Nat) (l : Link) =>
+    match l with
+    | .healthy =>
+      let rs := reqsOf x
+      s!"{pfx}xlink{x} H n={rs.length} S=1 last=S reqs=" ++ (if rs.isEmpty then "-" else ",".intercalate rs)
+    | .unhealthy => s!"{pfx}xlink{x} U n=0 S=0 last=- reqs=-"
+    | .closed => s!"{pfx}xlink{x} C"
+    | .missing => s!"{pfx}xlink{x} M"
+  [ "prod_seqs " ++ joinOr (ticks.map fun t => toString t.seq),
+    "prod_terminal " ++ joinOr ((List.replicate (ticks.length - 1) "0") ++ ["1"]),
+    "prod_early_end 0", "prod_end 1", "prod_tx A",
+    "prod_last " ++ lastKind n.2, s!"prod_end_seq {n.1.seq}",
+    "at_terminal " ++ joinOr (s.init.links.zipIdx.map fun (l, x) =>
+      match l with | .healthy => toString (reqsOf x).length | .unhealthy => "0" | _ => "-") ] ++
+  (s.init.links.zipIdx.map fun (l, x) => link "" x l) ++
+  [ "plain_last " ++ lastKind n.2 ] ++
+  (s.init.links.zipIdx.map fun (l, x) => link "plain_" x l)
+
 def enStep (s : Option EnSt) (toks : List String) : Option (Option EnSt × List String) :=
   match toks, s with
   | "init" :: rest, _ =>
@@ -587,12 +702,12 @@ structure St where
   en : Option EnSt := none
 
 def chOps : List String := ["chan", "send", "sink", "nextwait", "clone", "droptx", "tostream", "next", "poll", "droprx", "wrap",
-  "wrapoff", "dsend", "disable"]
+  "wrapoff", "dsend", "disable", "dropd"]
 def flOps : List String := ["flaky", "flakyoff", "fsend", "fdisable"]
 def mgOps : List String := ["merge", "ml", "mr", "mcl", "mcr", "mpoll", "mrun"]
 def ixOps : List String := ["index", "ipush", "iclose", "ipoll"]
 def snOps : List String := ["snap", "snapupd"]
-def prOps : List String := ["prod", "pupd", "precv", "pdroprx", "pdisable"]
+def prOps : List String := ["prod", "pupd", "precv", "pdroprx", "pdisable", "pdroptx"]
 def enOps : List String := ["init", "algo", "ev"]
 
 def model : Drv St where
@@ -619,6 +734,10 @@ def model : Drv St where
       | ["rundrop", mode, k], some e =>
         match k.toNat? with
         | some k => if mode == "sync" || mode == "async" then (s, runDrop e k) else bad
+        | none => bad
+      | ["runprod", mode, r], some e =>
+        match r.toNat? with
+        | some r => if mode == "sync" || mode == "async" then (s, runProd e r) else bad
         | none => bad
       | _, _ => bad
 
@@ -668,6 +787,10 @@ def spec : Drv SpecSt where
       | ["rundrop", mode, k], some e =>
         match k.toNat? with
         | some k => if mode == "sync" || mode == "async" then (s, runDropSpec e k) else bad
+        | none => bad
+      | ["runprod", mode, r], some e =>
+        match r.toNat? with
+        | some _ => if mode == "sync" || mode == "async" then (s, runProdSpec e) else bad
         | none => bad
       | _, _ => bad
 
